@@ -36,9 +36,9 @@ ASSUMPTIONS = [
     "list sources cannot carry a fault; the baseline then uses the one-shot sync iterator flavour",
 ]
 
-SRC_FL = ["list", "ringlist", "seq", "iter", "agen", "aclass", "aplain", "tuple", "tuplesub", "aeager", "aeagerstop", "reiter", "areiter", "aproxy", "agencoro", "iter_noasync", "iter_hint0"]
+SRC_FL = ["list", "ringlist", "seq", "iter", "agen", "aclass", "aplain", "tuple", "tuplesub", "aeager", "aeagerstop", "reiter", "areiter", "aproxy", "agencoro", "iter_noasync", "iter_hint0", "iter_awaitable", "aclass_awaitable"]
 FN_FL = ["def", "async", "partial", "obj", "objaw", "falsyobj", "eqobj", "unhashobj", "aeqobj", "gencoro", "classaw", "defcoro", "defcoro", "eagercoro"]
-ASYNC_SRC = {"agen", "aclass", "aplain", "aeager", "aeagerstop", "areiter", "aproxy", "agencoro"}
+ASYNC_SRC = {"agen", "aclass", "aplain", "aeager", "aeagerstop", "areiter", "aproxy", "agencoro", "aclass_awaitable"}
 ALL = ITER_TOOLS + AGG_TOOLS
 
 
